@@ -40,7 +40,7 @@ m = {
     'setup_cmd': '/venv/bin/python run.py selftest env',
     'hooks': {
         'guard': 'PYKDEBUGPARSER_VERIF',
-        'enable': 'no source hooks exist: every seam used (reader argument, TracesParser.handlers instance dict, shared table dicts, trace_codes argument, sys.modules swap of errno/signal/socket for a per-host copy of the package) is already in the code; the guard variable is read by nothing',
+        'enable': 'no source hooks exist: every seam used (reader argument, TracesParser.handlers instance dict, shared table dicts, trace_codes argument, sys.modules swap of errno/signal/socket/os/sys/platform/ctypes/struct/resource for a per-host copy of the package) is already in the code; the guard variable is read by nothing',
         'baseline_off_cmd': 'cd /repo && /venv/bin/python -m pytest -ra -q -p no:cacheprovider --timeout=900 --continue-on-collection-errors',
         'source_commits': [],
         'add_only': True,
